@@ -95,6 +95,8 @@ pub struct WindowObs {
     pub tx_ret_ms: Option<u32>,
     /// trace index of the first accepted-downlink delivery, if any (parameters may change after it)
     pub first_delivery_at: Option<usize>,
+    /// trace index of the last delivery of the operation, if any
+    pub last_delivery_at: Option<usize>,
 }
 
 pub fn window_obs(trace: &[Ev], lo: usize, hi: usize) -> WindowObs {
@@ -123,6 +125,7 @@ pub fn window_obs(trace: &[Ev], lo: usize, hi: usize) -> WindowObs {
                 if w.first_delivery_at.is_none() {
                     w.first_delivery_at = Some(lo + i);
                 }
+                w.last_delivery_at = Some(lo + i);
             }
             _ => {}
         }
